@@ -208,6 +208,29 @@ pub fn replay(o: &Opts) -> Value {
                     }
                 }
             }
+            // ---- a sink that fails after `limit` bytes: an error, or the complete document - never Ok with a part of it
+            if o.aspect == "c13" && dynty.is_none() {
+                let root_name = root.clone().unwrap_or_else(|| "root".to_string());
+                let [full_a, _, full_c, _] = crate::family::ser_entry_points(ty, &v, &root_name, 64);
+                for (which, full) in [(0usize, &full_a), (1usize, &full_c)] {
+                    let Ok(full) = full else { continue };
+                    for limit in [0usize, 1, full.len() / 2, full.len().saturating_sub(1)] {
+                        if limit >= full.len() {
+                            continue;
+                        }
+                        if let Ok(rs) = crate::family::ser_failing_sink(ty, &v, &root_name, limit) {
+                            runs += 1;
+                            cmp += 1;
+                            let (ok, out) = &rs[which];
+                            if *ok && out != full {
+                                note(&mut local_bad, &["c13"], "sink-failure-swallowed: Ok although the sink holds only a part of the document",
+                                    json!({"entry": if which == 0 { "to_utf8_io_writer" } else { "Writer::write_serializable" }, "sink_accepts_bytes": limit,
+                                           "in_the_sink": String::from_utf8_lossy(out), "document": String::from_utf8_lossy(full)}));
+                            }
+                        }
+                    }
+                }
+            }
             // ---- the root element named by the TYPE (no explicit root tag): the same verdict and the same bytes as with that
             // name given explicitly (F01 with arbitrary names; the struct is rebuilt as a type given as data)
             if ty == "F01" && dynty.is_none() && o.aspect == "c13" {
@@ -299,6 +322,9 @@ pub fn replay(o: &Opts) -> Value {
                                     ("nil-unquoted", nil_everywhere(&doc, false)),
                                     ("mixed-skip", mixed_skip(&doc, false)),
                                     ("mixed-skip2", mixed_skip(&doc, true)),
+                                    // an element the target skips whose content is NOT well-formed (a wrong end tag, counts balanced)
+                                    ("illformed-skip", insert_first_child(&doc, "<zz>t<y><q/></w></zz>")),
+                                    ("illformed-skip2", insert_first_child(&doc, "<zz><zz></y></zz>")),
                                 ];
                                 for (vname, vdoc) in &variants {
                                     let d = de_str(ty, vdoc);
@@ -437,6 +463,12 @@ pub fn deep_nesting() -> (u64, Option<(String, Value)>) {
 /// Mixed content in front of everything else: an element the target skips whose content is (or ends with) text, followed by
 /// text that starts with blanks.  Whether a target captures that text or not, both entry points must agree on it.
 fn mixed_skip(doc: &str, child_first: bool) -> String {
+    let ins = if child_first { "<zz><b/>tail</zz>  lead " } else { "<zz>tail</zz>  lead " };
+    insert_first_child(doc, ins)
+}
+
+/// `ins` placed right after the root's start tag (nothing for a self-closed root)
+fn insert_first_child(doc: &str, ins: &str) -> String {
     let b = doc.as_bytes();
     let (mut i, mut q) = (0usize, 0u8);
     while i < b.len() {
@@ -451,7 +483,6 @@ fn mixed_skip(doc: &str, child_first: bool) -> String {
     if i >= b.len() || i == 0 || b[i - 1] == b'/' {
         return doc.to_string();
     }
-    let ins = if child_first { "<zz><b/>tail</zz>  lead " } else { "<zz>tail</zz>  lead " };
     format!("{}{}{}", &doc[..=i], ins, &doc[i + 1..])
 }
 
